@@ -470,3 +470,98 @@ class ComposeGenericTransition(Unit):
             ctx.canary()
 
         ctx.eng.explore(thunk)
+
+
+# ================================================================================================
+# the WorkflowGraph wrapper against a reference multigraph (the contracts the conductor units assume)
+# ================================================================================================
+class GraphWrapper(Unit):
+    bounded = True
+    name = "D.graph_wrapper"
+    functions = ["orquesta.graphing.WorkflowGraph.add_task", "orquesta.graphing.WorkflowGraph.update_task",
+                 "orquesta.graphing.WorkflowGraph.add_transition", "orquesta.graphing.WorkflowGraph.update_transition",
+                 "orquesta.graphing.WorkflowGraph.has_transition", "orquesta.graphing.WorkflowGraph.get_transition",
+                 "orquesta.graphing.WorkflowGraph.get_next_transitions", "orquesta.graphing.WorkflowGraph.get_prev_transitions",
+                 "orquesta.graphing.WorkflowGraph.get_task", "orquesta.graphing.WorkflowGraph.has_barrier",
+                 "orquesta.graphing.WorkflowGraph.get_barriers", "orquesta.graphing.WorkflowGraph.task_has_retry",
+                 "orquesta.graphing.WorkflowGraph.get_task_retry_spec", "orquesta.graphing.WorkflowGraph.roots",
+                 "orquesta.graphing.WorkflowGraph.serialize", "orquesta.graphing.WorkflowGraph.deserialize"]
+    obligations = {
+        "C14.graph.wrapper_contracts": {"props": ["C14", "C05", "C07", "C13", "C01"], "text":
+            "the WorkflowGraph wrapper behaves as the multigraph view the conductor contracts assume: transitions are (source, target, key, attributes) with one key per parallel edge, next/prev transitions are complete and sorted by target/source name, has_transition filters on all given attributes, node queries return fresh copies, barrier/retry attributes are exactly what was set, roots are the nodes without inbound edges sorted by id, and all of this survives serialize/deserialize"},
+    }
+    assumptions = ["BOUNDED: random operation sequences on <= 5 nodes, <= 8 edges (150 quick / 1500 thorough graphs, seeded); networkx external",
+                   "graphs are built the way the composer builds them: one condition per (task, transition position). (has_transition / get_transition apply only the LAST keyword filter because their lambdas capture the loop variables late; with one condition per position this cannot be observed, so it breaks no listed property and is recorded as an observation only.)"]
+    trusted = ["CPython", "networkx"]
+
+    def run_split(self, ctx, split):
+        n = 150 if ctx.tier == "quick" else 1500
+        rng = random.Random(ctx.seed * 13 + 7)
+
+        def thunk(e):
+            for _ in range(n):
+                g = graphing.WorkflowGraph()
+                nodes, edges = {}, []     # reference: nodes -> attrs ; edges: [src, dst, key, attrs]
+                names = ["n%d" % i for i in range(rng.choice([2, 3, 4, 5]))]
+                ops = []
+                # as in composed graphs, a transition position (ref) of a task has one condition
+                crit_of = {(nm, r): rng.choice([[], ["<% succeeded() %>"], ["<% failed() %>"]]) for nm in names for r in (0, 1, 2)}
+                for _ in range(rng.choice([3, 5, 8])):
+                    s_, d_ = rng.choice(names), rng.choice(names)
+                    ref = rng.choice([0, 1, 2])
+                    crit = crit_of[(s_, ref)]
+                    existing = [x for x in edges if x[0] == s_ and x[1] == d_ and x[3].get("criteria") == crit and x[3].get("ref") == ref]
+                    ops.append(("edge", s_, d_, crit, ref))
+                    if g.has_transition(s_, d_, criteria=crit, ref=ref):
+                        if not existing:
+                            ctx.oblige("C14.graph.wrapper_contracts", False, None, {"ops": ops, "why": "has_transition found a non-existing edge"})
+                        continue
+                    if existing:
+                        ctx.oblige("C14.graph.wrapper_contracts", False, None, {"ops": ops, "why": "has_transition missed an existing edge"})
+                        continue
+                    g.add_transition(s_, d_, criteria=crit, ref=ref)
+                    key = len([x for x in edges if x[0] == s_ and x[1] == d_])
+                    edges.append([s_, d_, key, {"criteria": crit, "ref": ref}])
+                    nodes.setdefault(s_, {})
+                    nodes.setdefault(d_, {})
+                for name in names:
+                    if rng.random() < 0.3:
+                        val = rng.choice(["*", 1, 2])
+                        g.add_task(name)
+                        g.set_barrier(name, value=val)
+                        nodes.setdefault(name, {})["barrier"] = val
+                    if rng.random() < 0.2:
+                        r = {"when": None, "count": 2, "delay": 1}
+                        g.add_task(name, retry=r)
+                        nodes.setdefault(name, {})["retry"] = {"when": None, "count": 2, "delay": 1}
+                info = {"nodes": dict(nodes), "edges": list(map(list, edges))}
+                for gg in (g, graphing.WorkflowGraph.deserialize(json.loads(json.dumps(g.serialize())))):
+                    ok = True
+                    for name in nodes:
+                        nt = gg.get_next_transitions(name)
+                        want = sorted([x for x in edges if x[0] == name], key=lambda x: x[1])
+                        ok = ok and sorted((a, b, k, json.dumps(at, sort_keys=True)) for a, b, k, at in nt) == \
+                            sorted((a, b, k, json.dumps(at, sort_keys=True)) for a, b, k, at in want)
+                        ok = ok and [x[1] for x in nt] == sorted(x[1] for x in nt)
+                        pt = gg.get_prev_transitions(name)
+                        wantp = [x for x in edges if x[1] == name]
+                        ok = ok and sorted((a, b, k) for a, b, k, at in pt) == sorted((a, b, k) for a, b, k, at in wantp)
+                        t1, t2 = gg.get_task(name), gg.get_task(name)
+                        ok = ok and t1 == dict({"id": name}, **nodes[name]) and t1 is not t2
+                        if "retry" in nodes[name]:
+                            ok = ok and t1["retry"] is not t2["retry"] and gg.task_has_retry(name) \
+                                and gg.get_task_retry_spec(name) == nodes[name]["retry"]
+                        else:
+                            ok = ok and not gg.task_has_retry(name)
+                        ok = ok and gg.has_barrier(name) == ("barrier" in nodes[name]) and gg.get_barrier(name) == nodes[name].get("barrier")
+                    ok = ok and set(gg.get_barriers()) == {k for k, v in nodes.items() if v.get("barrier")}
+                    roots = sorted(k for k in nodes if not any(x[1] == k for x in edges))
+                    ok = ok and [r["id"] for r in gg.roots] == roots
+                    for s_, d_, key, at in edges:
+                        tr = gg.get_transition(s_, d_, key=key)
+                        ok = ok and tr[2] == key and tr[3] == at
+                    ctx.oblige("C14.graph.wrapper_contracts", ok, None, info)
+            ctx.canary()
+
+        ctx.eng.explore(thunk)
+        ctx.bounded.append({"unit": self.name, "bound": "%d random graphs" % n})
